@@ -103,8 +103,30 @@ def slice_with_static_deps(path, signature_res, provided=()):
     for name, dep in deps:
         head = dep[:dep.index("{")].strip()
         protos.append(re.sub(r"\s+", " ", head) + ";")
-    return "\n".join(protos) + ("\n\n" if protos else "") + "\n\n".join(d for _, d in deps) + \
-        ("\n\n" if deps else "") + "\n\n".join(wanted)
+    # file-local macros and static const tables the sliced text uses
+    src = open(path, encoding="utf-8", errors="replace").read()
+    body = "\n".join([d for _, d in deps] + wanted)
+    extra = []
+    seen = set()
+    grew = True
+    while grew:
+        grew = False
+        for ident in sorted(set(re.findall(r"\b[A-Za-z_]\w*\b", body + "\n".join(extra)))):
+            if ident in seen or ident in have or ident in provided:
+                continue
+            m = re.search(r"^#[ \t]*define[ \t]+%s\b.*(?:\\\n.*)*" % re.escape(ident), src, re.M)
+            if m:
+                seen.add(ident)
+                extra.append("#ifndef %s\n%s\n#endif" % (ident, m.group(0)))
+                grew = True
+                continue
+            m = re.search(r"^static\s+const\s[^;=(){}]*\b%s\s*\[[^\]]*\]\s*=\s*\{.*?^\};" % re.escape(ident), src, re.M | re.S)
+            if m:
+                seen.add(ident)
+                extra.append(m.group(0))
+                grew = True
+    return "\n".join(extra) + ("\n\n" if extra else "") + "\n".join(protos) + ("\n\n" if protos else "") + \
+        "\n\n".join(d for _, d in deps) + ("\n\n" if deps else "") + "\n\n".join(wanted)
 
 
 def slice_lines(path, start_re, end_re):
